@@ -320,10 +320,12 @@ def check_live_drops(rep, fl, rule="R08.1"):
             name = b.local_name.get(l) or "tmp"
             why = None
             nfn = neutral_fn(b.spath)
+            # (the coroutine of an async helper that a refactoring split off belongs to the function it was split from)
+            nroot = neutral_fn(strip_generics(b.raw.get("root") or b.spath))
             nty = neutral_ty(ty)
             for i_, (fre, nre, tre, reason) in enumerate(AUDITED_DROPS):
                 # the local's name is consulted only to tell bare `V` locals of one function apart
-                if re.search(fre, nfn) and (nty != "V" or re.search(nre, name)) and re.search(tre, nty):
+                if (re.search(fre, nfn) or (b.is_closure and nroot != nfn and re.search(fre, nroot))) and (nty != "V" or re.search(nre, name)) and re.search(tre, nty):
                     why = reason
                     used.add(i_)
                     break
